@@ -48,7 +48,7 @@ Ltac step_cases H :=
   unfold step in H;
   match type of H with context [pcs ?s ?t] =>
     let Epc := fresh "Epc" in destruct (pcs s t) eqn:Epc end;
-  unfold ts_enter, tr_enter, cas_entry, ret, fin_disc, fin, push, is_full, cur_id in H;
+  unfold ts_enter, tr_enter, cas_entry, owe_s_done, ret, fin_disc, fin, push, is_full, cur_id in H;
   fsimpl; cbv beta iota zeta in H;
   repeat (break_match H; fsimpl; cbv beta iota zeta in H);
   try discriminate H;
